@@ -7,6 +7,7 @@ from props import regpcommon as R
 ID = "C09"
 DRIVER = "drv_regp"
 HARNESS = "h_regp"
+THOROUGH_SEEDS = 3
 GEN = [constants.gen]
 TIE = ['Ufw.Tie.Regp']
 RULE = ("both transports x {8,16}-bit memory x allocator block sizes F+1, F+2, F+11..F+17, 100, 128, 200: frames (requests, responses, meta, garbage) of "
